@@ -223,11 +223,11 @@ fn lookup_histogram(events: &[Event]) -> BTreeMap<String, u64> {
 fn check_valid(ctx: &Ctx, nodes: &[Node], what: &str) -> bool {
     let src = ir::print_canonical(nodes);
     let reference = layout::assemble(&layout::single(nodes.to_vec()));
-    verif::enable(verif::LOOKUP);
+    fw::hook_enable(verif::LOOKUP);
     let _ = verif::take();
     let out = fw::build_str(&src);
     let events = verif::take();
-    verif::enable(0);
+    fw::hook_enable(0);
     ctx.eval(1);
     ctx.merge_counts(&lookup_histogram(&events));
     let replay = |d: Value| json!({"source": src, "kind": what, "detail": d, "observed": out.brief()});
